@@ -103,6 +103,24 @@ Definition set_mem_bytes (k : bytes) (s : list bytes) : bool := mem_bytes k s.
 Definition set_mem_Z (k : Z) (s : list Z) : bool := mem_Z k s.
 Definition map_get_bytes (k : bytes) (m : list (bytes * bytes)) : option bytes := lookup k m.
 
+(* kind-keyed integer maps (map[reflect.Type]int): absent = 0 *)
+Fixpoint map_getd_kind (k : def_kind) (m : list (def_kind * Z)) : Z :=
+  match m with
+  | [] => 0
+  | (k', v) :: tl => if kind_eqb k k' then v else map_getd_kind k tl
+  end.
+Definition map_inc_kind (k : def_kind) (m : list (def_kind * Z)) : list (def_kind * Z) := (k, map_getd_kind k m + 1) :: m.
+
+(* scanner.Position{Line: l, Column: c} (no file name in the model; Offset 0) *)
+Definition go_position (l c : Z) : position := {| p_line := l; p_column := c; p_offset := 0 |}.
+
+(* &dbc.XxxDef{}: zero values, only ever observed through reflect.TypeOf (= kind_of) *)
+Definition zero_pos : position := go_position 0 0.
+Definition zero_VersionDef : def := DVersion zero_pos [].
+Definition zero_NewSymbolsDef : def := DNewSymbols zero_pos [].
+Definition zero_BitTimingDef : def := DBitTiming zero_pos 0 0 0.
+Definition zero_NodesDef : def := DNodes zero_pos [].
+
 (* ---- 4. Reportf formats ---------------------------------------------------------------------- *)
 Inductive farg := FStr (b : bytes) | FInt (z : Z) | FFloat (bits : Z).
 
